@@ -718,6 +718,10 @@ class ExprMixin:
         sf = self.reg.specfuncs[name]
         if len(args) != len(sf.params):
             raise Unsupported(f"spec function {name} expects {len(sf.params)} arguments")
+        if getattr(sf, "opaque", False) and not (self.contract is not None and name in getattr(self.contract, "reveal", ())):
+            cargs = [self.coerce(a, pt) for (pn, pt), a in zip(sf.params, args)]
+            fn = z3.Function("opq_" + name, *[self.sort(pt) for _, pt in sf.params], z3.BoolSort())
+            return Val(BOOL, fn(*[c.z for c in cargs]))
         env = {}
         for (pn, pt), a in zip(sf.params, args):
             env[pn] = self.coerce(a, pt)
